@@ -50,11 +50,10 @@ Endian Serializer::setEndian(Endian e)
 
 bool Serializer::extendSize(size_t need_size)
 {
-    size_t whole_size = pos_ + need_size;
     if (type_ == kRaw)
-        return whole_size <= size_;
+        return need_size <= (size_ - pos_);     //! pos_ <= size_ always holds; pos_ + need_size could wrap
     else {
-        p_block_->resize(whole_size);
+        p_block_->resize(pos_ + need_size);
         start_ = p_block_->data();
         return true;
     }
@@ -194,7 +193,7 @@ Endian Deserializer::setEndian(Endian e)
 
 bool Deserializer::checkSize(size_t need_size) const
 {
-    return (pos_ + need_size) <= size_;
+    return need_size <= (size_ - pos_);     //! pos_ <= size_ always holds; pos_ + need_size could wrap
 }
 
 bool Deserializer::set_pos(size_t pos) {
